@@ -886,3 +886,41 @@ fn probe_c3_pop_from_inv() {
     kani::cover!(lu == 0xffff && m == 1 && h0 == head_a);
     core::mem::forget(q);
 }
+
+// ---------------- C07 probe: everything the device can reach is arbitrary; one outstanding direct chain; caller pops it
+#[kani::proof]
+#[kani::unwind(6)]
+fn probe_c7_hostile_pop() {
+    const N: usize = 4;
+    let mut b = any_backing::<N>();
+    let mut q = mk_queue::<KHal, N>(&mut b, 0, false, kani::any());
+    havoc_all_free(&mut q);
+    let a = [1u8, 2];
+    let mut o = [0u8; 3];
+    let n_in: usize = kani::any(); kani::assume(n_in <= 1);
+    let ins: [&[u8]; 1] = [&a];
+    let tok = unsafe { q.add(&ins[..n_in], &mut [&mut o]) }.unwrap();
+    let used_before = q.num_used;
+    // hostile device: scribble over everything it can reach
+    for i in 0..N {
+        b.desc[i].addr = kani::any(); b.desc[i].len = kani::any();
+        b.desc[i].flags = DescFlags::from_bits_retain(kani::any()); b.desc[i].next = kani::any();
+        b.avail.ring[i] = kani::any();
+        b.used.ring[i] = UsedElem { id: kani::any(), len: kani::any() };
+    }
+    b.avail.idx.store(kani::any(), Ordering::Relaxed);
+    b.avail.flags.store(kani::any(), Ordering::Relaxed);
+    b.avail.used_event.store(kani::any(), Ordering::Relaxed);
+    b.used.idx.store(kani::any(), Ordering::Relaxed);
+    b.used.flags.store(kani::any(), Ordering::Relaxed);
+    b.used.avail_event.store(kani::any(), Ordering::Relaxed);
+    let _ = q.should_notify();
+    let _ = q.peek_used();
+    let r = unsafe { q.pop_used(tok, &ins[..n_in], &mut [&mut o]) };
+    match r {
+        Ok(_) => { assert!(q.num_used == 0); assert!(q.free_head == tok); }
+        Err(e) => { assert!(e == Error::NotReady || e == Error::WrongToken); assert!(q.num_used == used_before); }
+    }
+    kani::cover!(r.is_ok());
+    core::mem::forget(q);
+}
